@@ -2,8 +2,12 @@
 //! REAL decoder + `decode_position` + `snapshot::update_snapshot` (jet1090 verification driver,
 //! `snap …`).  The oracle computes the property's clauses directly from what the program shows —
 //! the per-record JSON and the table — and re-runs every aircraft's sub-history alone
-//! (non-interference).  The abstract view of every record (what `update_snapshot` looks at) is
-//! extracted from the record's JSON and handed to the Lean model for comparison.
+//! (non-interference).  Two correspondence cases per history: `snap` — the abstract view of every
+//! record (what `update_snapshot` looks at) is extracted here from the record's JSON (`view_of`) and
+//! handed to the Lean model of the table; `snapf` — the FRAMES themselves are handed over and the
+//! model decodes them, derives the views (Model/SnapshotView.lean `viewOfJson`, the Lean twin of
+//! `view_of`) and runs its table; only the position `decode_position` put into the message travels
+//! with the frame.  Both answers must equal the table the real code serves.
 use crate::common::*;
 use crate::decgen::set_parity;
 use crate::jet::Jet;
@@ -346,6 +350,35 @@ fn fld(j: &Value, k: &str) -> Option<String> {
     j.get(k).and_then(val)
 }
 
+/// The canonical value text of the frame-level op (`snapf`), which the Lean side computes from the
+/// decoder model's JSON (Model/SnapshotView.lean `valText`): strings with spaces → `_`; numbers as
+/// fixed-point decimals with 9 fractional digits, the integer part alone when all nine are 0 (so an
+/// integer-valued quantity has the same text whatever integer or float type carries it); never `-0`.
+fn canon(v: &Value) -> Option<String> {
+    match v {
+        Value::Null => None,
+        Value::Number(n) => {
+            let s = format!("{:.9}", n.as_f64().unwrap());
+            let s = s.strip_suffix(".000000000").unwrap_or(&s).to_string();
+            Some(if s == "-0" { "0".to_string() } else { s })
+        }
+        Value::String(s) => Some(s.replace(' ', "_")),
+        Value::Bool(b) => Some(b.to_string()),
+        _ => Some("<compound>".into()),
+    }
+}
+
+/// one reception as the model's `snapf` token: `<ts>:<framehex>[:<lat>,<lon>]` — the position is what
+/// `decode_position` put into the message before `update_snapshot` saw it (an input of the view:
+/// the CPR state machine is C06's model)
+fn rx_token(ts: u64, framehex: &str, pre: &Value) -> String {
+    let pos = match (pre.get("latitude").and_then(canon), pre.get("longitude").and_then(canon)) {
+        (Some(lat), Some(lon)) => format!(":{lat},{lon}"),
+        _ => String::new(),
+    };
+    format!("{ts}:{framehex}{pos}")
+}
+
 fn bit(frame: &[u8], i: usize) -> u8 {
     (frame[i / 8] >> (7 - i % 8)) & 1
 }
@@ -492,8 +525,9 @@ const TABLE_FIELDS: [(&str, &str); 16] = [
     ("tc", "typecode"),
 ];
 
-/// the table served by the real code, as the canonical text the model prints
-fn table_text(table: &Value) -> String {
+/// the table served by the real code, as the canonical text the model prints; `val` renders a value
+fn table_text(table: &Value, val: fn(&Value) -> Option<String>) -> String {
+    let fld = |j: &Value, k: &str| j.get(k).and_then(val);
     let rows = table.as_array().cloned().unwrap_or_default();
     if rows.is_empty() {
         return "empty".into();
@@ -747,7 +781,16 @@ fn process(out: &mut Out, jet: &mut Jet, scs: &[Scenario]) {
             .zip(j["records"].as_array().unwrap())
             .map(|((t, f), r)| view_of(ts_of(t), &r["pre"], &unhex(f).unwrap_or_default()))
             .collect();
-        out.case(&format!("snap {}", views.join(" ")), &table_text(&j["table"]));
+        out.case(&format!("snap {}", views.join(" ")), &table_text(&j["table"], val));
+        // the same history FROM THE FRAMES: the model decodes them itself (Message.tryFrom), derives the
+        // views itself (viewOfJson) and runs its update_snapshot; only the decoded positions are handed over
+        let rxs: Vec<String> = sc
+            .recs
+            .iter()
+            .zip(j["records"].as_array().unwrap())
+            .map(|((t, f), r)| rx_token(ts_of(t), f, &r["pre"]))
+            .collect();
+        out.case(&format!("snapf {}", rxs.join(" ")), &table_text(&j["table"], canon));
         out.stat_n("records", sc.recs.len() as u64);
         out.stat_n("aircraft", own.len() as u64);
         for r in j["records"].as_array().unwrap() {
